@@ -88,7 +88,7 @@ func main() {
 	}())
 	run.Set("source_addresses_skipped", skipped)
 
-	xffSets := [][]string{nil, {"203.0.113.7"}, {"203.0.113.7, 2001:db8::1", "garbage-not-an-ip", "10.0.0.1"}, {""}, {"unknown, 198.51.100.2"}}
+	xffSets := [][]string{nil, {"203.0.113.7"}, {"203.0.113.7, 2001:db8::1", "garbage-not-an-ip", "10.0.0.1"}, {""}, {"unknown, 198.51.100.2"}, {"fe80::2%eth1"}, {"198.51.100.3, 6.6.6.6%x", "a%25b;c=\"d\""}}
 	hosts := []string{"front.example", "front.example:8443", "[2001:db8::5]:443", "FRONT.Example", "a.b.c.d.example:1"}
 	var cases []tcase
 	rng := run.Rand(9)
@@ -113,7 +113,7 @@ func main() {
 		s := srcs[rng.Intn(len(srcs))]
 		var xff []string
 		for k := rng.Intn(4); k > 0; k-- {
-			xff = append(xff, []string{"203.0.113.9", "2001:db8::9", "x", "1.2.3.4, 5.6.7.8", " 9.9.9.9 "}[rng.Intn(5)])
+			xff = append(xff, []string{"203.0.113.9", "2001:db8::9", "x", "1.2.3.4, 5.6.7.8", " 9.9.9.9 ", "fe80::9%lo", "%", "_hidden", "[2001:db8::a]:4711"}[rng.Intn(9)])
 		}
 		cases = append(cases, tcase{Family: "random", Preserve: rng.Intn(2) == 0, Proto: []string{"http/1.1", "h2", "no-alpn"}[rng.Intn(3)], LocalIP: s.ip, Target: s.target, Host: hosts[rng.Intn(len(hosts))], XFFClient: xff})
 	}
@@ -181,6 +181,11 @@ func main() {
 				return
 			}
 			defer s.Close()
+			if s.Proto == "h2" && i%4 == 1 {
+				// legal on a TLS connection too (and what an h2 CONNECT / a gateway rewriting schemes sends)
+				s.Scheme = "http"
+				run.Add("h2_connections_with_scheme_http", 1)
+			}
 			if s.Proto == "h2" && i%2 == 0 {
 				// use up the server's per-connection cache of canonical header names first (multi-step history)
 				var filler [][2]string
